@@ -86,7 +86,10 @@ func VF_C17_L1_HTTP() {
 	w := vfNewWorld(cfg)
 	hdr := http.Header{}
 	originOK := true
-	switch zzvf.Choose("origin", 4) {
+	switch zzvf.Choose("origin", 5) {
+	case 4: // two Origin header lines, neither of them listed
+		hdr["Origin"] = []string{"http://evil.example", "http://evil2.example"}
+		originOK = false
 	case 0: // no Origin header
 	case 1:
 		hdr["Origin"] = []string{"null"}
@@ -100,8 +103,22 @@ func VF_C17_L1_HTTP() {
 	if method == "POST" {
 		path = "/api/test/model/act"
 	}
+	// an invalid resource path (an empty token) is refused before anything
+	// is asked of a service, header authentication included
+	badPath := method != "OPTIONS" && method != "PUT" && originOK && zzvf.Choose("path", 2) == 1
+	if badPath {
+		path = strings.Replace(path, "/test/", "/test//", 1)
+	}
 	zzvf.Reach("c17l1-start")
 	rec, cl := w.vfHTTP(method, path, "", "", hdr)
+	if badPath {
+		w.settle()
+		zzvf.Assert(len(w.mq.reqs) == 0, "invalid-path-causes-no-service-traffic")
+		if len(w.mq.reqs) == 0 {
+			zzvf.Assert(rec.status == 404, "invalid-path-is-404")
+		}
+		return
+	}
 	if method == "OPTIONS" {
 		zzvf.Assert(len(w.mq.reqs) == 0 && cl == nil, "preflight-causes-no-service-traffic")
 		if !originOK {
